@@ -288,7 +288,11 @@ def check_symbols(ctx, w):
     ctx.ob('E-i', f.construct, 'hash tables built over this segment at the mapped offsets',
            hs == [('=', 'GNUHashTable(elffile,gnu_hash_offset,self)'), ('=', 'ELFHashTable(elffile,hash_offset,self)')], got=hs)
     tests = [expr.cond_str(n.test, env) for n in ast.walk(f.node) if isinstance(n, ast.If)]
-    ctx.ob('E-i', f.construct, 'DT_SYMENT cross-check', expr.spec_cond('_symbol_size != d_val') in tests and expr.spec_cond("d_tag == 'DT_SYMENT'") in tests, got=tests)
+    atoms = set(a for n in ast.walk(f.node) if isinstance(n, ast.If) for a in expr.cond_atoms(n.test, env))
+    bad_size = [p for p in paths.func_paths(f.node) if p.end[0] == 'raise' and
+                expr.Facts(expr.CP(expr.cond_str(t, env), pol) for t, pol in p.conds()).get(expr.spec_cond('_symbol_size != d_val')) is True and
+                expr.Facts(expr.CP(expr.cond_str(t, env), pol) for t, pol in p.conds()).get(expr.spec_cond("d_tag == 'DT_SYMENT'")) is True]
+    ctx.ob('E-i', f.construct, 'DT_SYMENT cross-check', len(bad_size) >= 1 and all('ELFError' in U(p.end[1]) for p in bad_size), got=sorted(atoms)[:8])
     want_t = expr.spec_cond('tag_ptr > tab_ptr and (nearest_ptr is None or nearest_ptr > tag_ptr)')
     ctx.ob('E-i', f.construct, 'nearest higher pointer', want_t in tests, got=tests, expected=want_t)
     f = w.model.func(DYN, 'DynamicSegment.iter_symbols')
